@@ -15,7 +15,7 @@ vars == <<occ, hist, last>>
 -----------------------------------------------------------------------------
 Init == /\ occ = [o \in OMS |-> {}]
         /\ hist = <<>>
-        /\ last = [t |-> [path |-> {}, slots |-> <<>>, nbWl |-> 0, pcm |-> 1, pre |-> TRUE],
+        /\ last = [t |-> [path |-> {}, slots |-> <<>>, bw |-> 0, rate |-> 1, spacing |-> 12500, pre |-> TRUE],
                    out |-> [st |-> "init", nm |-> <<>>], before |-> [o \in OMS |-> {}]]
 
 Assign(t) == LET out == Outcome(occ, t)
@@ -42,7 +42,7 @@ InsideBandAndGuards == \A i \in Served : \A k \in UNION SlotSets(i) :
     /\ k >= IdxMin /\ k <= IdxMax
     /\ \A o \in hist[i].t.path : k \notin Unusable[o]
 
-EnoughSlots == \A i \in Served : SumM(hist[i].out.nm) >= hist[i].t.nbWl * hist[i].t.pcm
+EnoughSlots == \A i \in Served : SumM(hist[i].out.nm) >= NbWl(hist[i].t) * Pcm(hist[i].t)
 
 \* occupancy recorded per OMS is exactly the union of the accepted assignments crossing it (hence identical on the path)
 OccupancyIsUnionOfServed == \A o \in OMS :
